@@ -511,6 +511,10 @@ pub fn family(name: &str, _tier: Tier) -> Vec<Prog> {
                 (vec![var(0), var(1), map(F1::Par, 1), bind(0, ST(2), ST(2))], vec![3]),
                 (vec![var(0), var(1), map(F1::Par, 1), bind(0, ST(2), E(2)), map(F1::Inc, 3)], vec![4, 2]),
                 (vec![var(0), var(1), map(F1::Par, 1), map(F1::Inc, 2), bind(0, ST(3), F(2))], vec![4]),
+                // the closure hands back the same *outer* node whatever its input is: every re-run takes the
+                // "same right-hand side" shortcut (added after seed C05-e: bookkeeping done before that shortcut)
+                (vec![var(0), var(1), map(F1::Par, 1), bind(0, E(2), E(2))], vec![3]),
+                (vec![var(0), var(1), map(F1::Par, 1), map(F1::Inc, 2), bind(0, E(3), E(3)), map(F1::Inc, 4)], vec![5]),
             ];
             shapes
                 .into_iter()
